@@ -210,5 +210,15 @@ example : ∃ db', ([{ fileSize := 7, sync := 1, bps := 3, idx := 2, io := 1, sh
     exSt exDB exG rfl exInv (by simp [exSt, exDB, World.get, mergeDirName])
   exact ⟨db', h1, h2⟩
 
+/-- `checkOptions`: a configuration that is not `Valid` is rejected before anything is looked at —
+    the world (directories, lock) is unchanged and no handle exists; every other theorem of this
+    file assumes `Valid`, which is exactly the complement. -/
+theorem C02_options_rejected (s : St) (dir : String) (cfg : Cfg) (hdb : s.db = none) (h : ¬ cfg.Valid) :
+    openDB s dir cfg = (s, .err "options") := by
+  have h' : cfg.fileSize = 0 ∨ cfg.bps > 16777216 ∨ (cfg.sync = 2 ∧ cfg.bps = 0) := by
+    unfold Cfg.Valid at h; omega
+  unfold openDB
+  simp only [hdb, if_pos h']
+
 end XixiKV.C02
 
